@@ -202,9 +202,11 @@ def coq_eval_cases(wd, name, header, case_terms, evals, chunk=400, timeout=900):
     `evals` a list of Gallina function names of type list (nat * case) -> list nat.
     Returns (per-eval list of failing indices, error-or-None)."""
     files = []
+    offsets = {}
     for ci in range(0, len(case_terms), chunk):
         body = [header, 'Definition cases := [']
-        body.append(';\n'.join(f'({ci + j}%nat, {t})' for j, t in enumerate(case_terms[ci:ci + chunk])))
+        # indices are relative to the chunk (small unary nats inside Coq); the offset is added when parsing
+        body.append(';\n'.join(f'({j}%nat, {t})' for j, t in enumerate(case_terms[ci:ci + chunk])))
         body.append('].')
         for e in evals:
             body.append(f'Eval vm_compute in ({e} cases).')
@@ -212,6 +214,7 @@ def coq_eval_cases(wd, name, header, case_terms, evals, chunk=400, timeout=900):
         with open(path, 'w') as f:
             f.write('\n'.join(body) + '\n')
         files.append(path)
+        offsets[path] = ci
     results = [[] for _ in evals]
     errors = []
     lock = threading.Lock()
@@ -226,8 +229,9 @@ def coq_eval_cases(wd, name, header, case_terms, evals, chunk=400, timeout=900):
             if len(blocks) != len(evals):
                 errors.append(f'{os.path.basename(path)}: expected {len(evals)} blocks, got {len(blocks)}: {out[-400:]}')
                 return
+            off = offsets[path]
             for k, b in enumerate(blocks):
-                results[k] += parse_nat_list(b)
+                results[k] += [off + x for x in parse_nat_list(b)]
     threads = []
     sem = threading.Semaphore(NPROC)
 
